@@ -1,4 +1,655 @@
-import Rngs.Model.Xoshiro
+/-
+  C06 — jump() / long_jump() equal 2^(n/2) / 2^(3n/4) calls of next, for all states of the 12
+  jump-capable generators (n = 128, 256, 512 state bits).
+
+  Proof route (Rngs/Lib/PolyAction.lean, Rngs/Lib/OrbitCert.lean, Rngs/Cert/Lin*.lean):
+  the `impl_jump!` loop is `act T J` for the polynomial `J` packed in the constant words; the
+  characteristic polynomial `P` of the engine annihilates `T` (checked by the kernel on the
+  n one-bit states of the real model engine, extended by additivity); `x^(2^k) mod P = J` is
+  computed by the kernel; hence `act T J = T^(2^k)`.
+
+  Per generator `G`:
+    G_jump / G_longJump            the main statements
+    G_jump_step_comm, G_longJump_step_comm, G_jump_longJump_comm    commutation
+    G_iter_jump / G_iter_longJump  k jumps = k·2^(n/2) (resp. k·2^(3n/4)) steps
+    G_jump_then_steps / G_longJump_then_steps, G_jump_outputs / G_longJump_outputs
+                                   all later states and outputs coincide with the stepped generator
+  No theorem here has a hypothesis (all are for every state), so no satisfiability examples
+  are needed.
+-/
+import Rngs.Cert.LinXoroshiro128Main
+import Rngs.Cert.LinXoroshiro128ppMain
+import Rngs.Cert.LinXoshiro128Main
+import Rngs.Cert.LinXoshiro256Main
+import Rngs.Cert.LinXoshiro512Main
 namespace Rngs.C06
-theorem placeholder : True := trivial
+open Rngs
+
+-- only silences the elaborator's "exponent exceeds threshold" warning on `2 ^ 384`, `2 ^ 512`
+set_option exponentiation.threshold 1024
+
+/-! ### Xoroshiro128Plus (128 state bits) -/
+
+/-- `Xoroshiro128Plus::jump()` leaves the generator in the state reached by `2^64` calls of `next`. -/
+theorem Xoroshiro128Plus_jump (s : S2 64) :
+    Xoroshiro128Plus.jump s = iter Xoroshiro128Plus.step (2 ^ 64) s :=
+  Cert.Lin.Xoroshiro128.polyMod.jumpLoop_eq_iter XOROSHIRO128_JUMP (by omega) Cert.Lin.Xoroshiro128.jump_pow s
+
+/-- `Xoroshiro128Plus::long_jump()` leaves the generator in the state reached by `2^96` calls of `next`. -/
+theorem Xoroshiro128Plus_longJump (s : S2 64) :
+    Xoroshiro128Plus.longJump s = iter Xoroshiro128Plus.step (2 ^ 96) s :=
+  Cert.Lin.Xoroshiro128.polyMod.jumpLoop_eq_iter XOROSHIRO128_LONG_JUMP (by omega) Cert.Lin.Xoroshiro128.longJump_pow s
+
+theorem Xoroshiro128Plus_jump_step_comm (s : S2 64) :
+    Xoroshiro128Plus.jump (Xoroshiro128Plus.step s) = Xoroshiro128Plus.step (Xoroshiro128Plus.jump s) :=
+  comm_step_of_eq_iter Xoroshiro128Plus_jump s
+
+theorem Xoroshiro128Plus_longJump_step_comm (s : S2 64) :
+    Xoroshiro128Plus.longJump (Xoroshiro128Plus.step s) = Xoroshiro128Plus.step (Xoroshiro128Plus.longJump s) :=
+  comm_step_of_eq_iter Xoroshiro128Plus_longJump s
+
+theorem Xoroshiro128Plus_jump_longJump_comm (s : S2 64) :
+    Xoroshiro128Plus.jump (Xoroshiro128Plus.longJump s) = Xoroshiro128Plus.longJump (Xoroshiro128Plus.jump s) :=
+  comm_of_eq_iter Xoroshiro128Plus_jump Xoroshiro128Plus_longJump s
+
+/-- `k` repeated `jump`s are `k · 2^64` steps: starting points `2^64` steps apart on the cycle. -/
+theorem Xoroshiro128Plus_iter_jump (k : Nat) (s : S2 64) :
+    iter Xoroshiro128Plus.jump k s = iter Xoroshiro128Plus.step (k * 2 ^ 64) s :=
+  iter_of_eq_iter Xoroshiro128Plus_jump k s
+
+theorem Xoroshiro128Plus_jump_then_steps (i : Nat) (s : S2 64) :
+    iter Xoroshiro128Plus.step i (Xoroshiro128Plus.jump s) = iter Xoroshiro128Plus.step (i + 2 ^ 64) s :=
+  iter_after_of_eq_iter Xoroshiro128Plus_jump i s
+
+/-- every later output after `jump` is the output of the stepped generator -/
+theorem Xoroshiro128Plus_jump_outputs (i : Nat) (s : S2 64) :
+    (Xoroshiro128Plus.nextU64 (iter Xoroshiro128Plus.step i (Xoroshiro128Plus.jump s))).1 = (Xoroshiro128Plus.nextU64 (iter Xoroshiro128Plus.step (i + 2 ^ 64) s)).1 :=
+  congrArg (fun t => (Xoroshiro128Plus.nextU64 t).1) (Xoroshiro128Plus_jump_then_steps i s)
+
+/-- `k` repeated `longJump`s are `k · 2^96` steps: starting points `2^96` steps apart on the cycle. -/
+theorem Xoroshiro128Plus_iter_longJump (k : Nat) (s : S2 64) :
+    iter Xoroshiro128Plus.longJump k s = iter Xoroshiro128Plus.step (k * 2 ^ 96) s :=
+  iter_of_eq_iter Xoroshiro128Plus_longJump k s
+
+theorem Xoroshiro128Plus_longJump_then_steps (i : Nat) (s : S2 64) :
+    iter Xoroshiro128Plus.step i (Xoroshiro128Plus.longJump s) = iter Xoroshiro128Plus.step (i + 2 ^ 96) s :=
+  iter_after_of_eq_iter Xoroshiro128Plus_longJump i s
+
+/-- every later output after `longJump` is the output of the stepped generator -/
+theorem Xoroshiro128Plus_longJump_outputs (i : Nat) (s : S2 64) :
+    (Xoroshiro128Plus.nextU64 (iter Xoroshiro128Plus.step i (Xoroshiro128Plus.longJump s))).1 = (Xoroshiro128Plus.nextU64 (iter Xoroshiro128Plus.step (i + 2 ^ 96) s)).1 :=
+  congrArg (fun t => (Xoroshiro128Plus.nextU64 t).1) (Xoroshiro128Plus_longJump_then_steps i s)
+
+/-! ### Xoroshiro128PlusPlus (128 state bits) -/
+
+/-- `Xoroshiro128PlusPlus::jump()` leaves the generator in the state reached by `2^64` calls of `next`. -/
+theorem Xoroshiro128PlusPlus_jump (s : S2 64) :
+    Xoroshiro128PlusPlus.jump s = iter Xoroshiro128PlusPlus.step (2 ^ 64) s :=
+  Cert.Lin.Xoroshiro128pp.polyMod.jumpLoop_eq_iter XOROSHIRO128PP_JUMP (by omega) Cert.Lin.Xoroshiro128pp.jump_pow s
+
+/-- `Xoroshiro128PlusPlus::long_jump()` leaves the generator in the state reached by `2^96` calls of `next`. -/
+theorem Xoroshiro128PlusPlus_longJump (s : S2 64) :
+    Xoroshiro128PlusPlus.longJump s = iter Xoroshiro128PlusPlus.step (2 ^ 96) s :=
+  Cert.Lin.Xoroshiro128pp.polyMod.jumpLoop_eq_iter XOROSHIRO128PP_LONG_JUMP (by omega) Cert.Lin.Xoroshiro128pp.longJump_pow s
+
+theorem Xoroshiro128PlusPlus_jump_step_comm (s : S2 64) :
+    Xoroshiro128PlusPlus.jump (Xoroshiro128PlusPlus.step s) = Xoroshiro128PlusPlus.step (Xoroshiro128PlusPlus.jump s) :=
+  comm_step_of_eq_iter Xoroshiro128PlusPlus_jump s
+
+theorem Xoroshiro128PlusPlus_longJump_step_comm (s : S2 64) :
+    Xoroshiro128PlusPlus.longJump (Xoroshiro128PlusPlus.step s) = Xoroshiro128PlusPlus.step (Xoroshiro128PlusPlus.longJump s) :=
+  comm_step_of_eq_iter Xoroshiro128PlusPlus_longJump s
+
+theorem Xoroshiro128PlusPlus_jump_longJump_comm (s : S2 64) :
+    Xoroshiro128PlusPlus.jump (Xoroshiro128PlusPlus.longJump s) = Xoroshiro128PlusPlus.longJump (Xoroshiro128PlusPlus.jump s) :=
+  comm_of_eq_iter Xoroshiro128PlusPlus_jump Xoroshiro128PlusPlus_longJump s
+
+/-- `k` repeated `jump`s are `k · 2^64` steps: starting points `2^64` steps apart on the cycle. -/
+theorem Xoroshiro128PlusPlus_iter_jump (k : Nat) (s : S2 64) :
+    iter Xoroshiro128PlusPlus.jump k s = iter Xoroshiro128PlusPlus.step (k * 2 ^ 64) s :=
+  iter_of_eq_iter Xoroshiro128PlusPlus_jump k s
+
+theorem Xoroshiro128PlusPlus_jump_then_steps (i : Nat) (s : S2 64) :
+    iter Xoroshiro128PlusPlus.step i (Xoroshiro128PlusPlus.jump s) = iter Xoroshiro128PlusPlus.step (i + 2 ^ 64) s :=
+  iter_after_of_eq_iter Xoroshiro128PlusPlus_jump i s
+
+/-- every later output after `jump` is the output of the stepped generator -/
+theorem Xoroshiro128PlusPlus_jump_outputs (i : Nat) (s : S2 64) :
+    (Xoroshiro128PlusPlus.nextU64 (iter Xoroshiro128PlusPlus.step i (Xoroshiro128PlusPlus.jump s))).1 = (Xoroshiro128PlusPlus.nextU64 (iter Xoroshiro128PlusPlus.step (i + 2 ^ 64) s)).1 :=
+  congrArg (fun t => (Xoroshiro128PlusPlus.nextU64 t).1) (Xoroshiro128PlusPlus_jump_then_steps i s)
+
+/-- `k` repeated `longJump`s are `k · 2^96` steps: starting points `2^96` steps apart on the cycle. -/
+theorem Xoroshiro128PlusPlus_iter_longJump (k : Nat) (s : S2 64) :
+    iter Xoroshiro128PlusPlus.longJump k s = iter Xoroshiro128PlusPlus.step (k * 2 ^ 96) s :=
+  iter_of_eq_iter Xoroshiro128PlusPlus_longJump k s
+
+theorem Xoroshiro128PlusPlus_longJump_then_steps (i : Nat) (s : S2 64) :
+    iter Xoroshiro128PlusPlus.step i (Xoroshiro128PlusPlus.longJump s) = iter Xoroshiro128PlusPlus.step (i + 2 ^ 96) s :=
+  iter_after_of_eq_iter Xoroshiro128PlusPlus_longJump i s
+
+/-- every later output after `longJump` is the output of the stepped generator -/
+theorem Xoroshiro128PlusPlus_longJump_outputs (i : Nat) (s : S2 64) :
+    (Xoroshiro128PlusPlus.nextU64 (iter Xoroshiro128PlusPlus.step i (Xoroshiro128PlusPlus.longJump s))).1 = (Xoroshiro128PlusPlus.nextU64 (iter Xoroshiro128PlusPlus.step (i + 2 ^ 96) s)).1 :=
+  congrArg (fun t => (Xoroshiro128PlusPlus.nextU64 t).1) (Xoroshiro128PlusPlus_longJump_then_steps i s)
+
+/-! ### Xoroshiro128StarStar (128 state bits) -/
+
+/-- `Xoroshiro128StarStar::jump()` leaves the generator in the state reached by `2^64` calls of `next`. -/
+theorem Xoroshiro128StarStar_jump (s : S2 64) :
+    Xoroshiro128StarStar.jump s = iter Xoroshiro128StarStar.step (2 ^ 64) s :=
+  Cert.Lin.Xoroshiro128.polyMod.jumpLoop_eq_iter XOROSHIRO128_JUMP (by omega) Cert.Lin.Xoroshiro128.jump_pow s
+
+/-- `Xoroshiro128StarStar::long_jump()` leaves the generator in the state reached by `2^96` calls of `next`. -/
+theorem Xoroshiro128StarStar_longJump (s : S2 64) :
+    Xoroshiro128StarStar.longJump s = iter Xoroshiro128StarStar.step (2 ^ 96) s :=
+  Cert.Lin.Xoroshiro128.polyMod.jumpLoop_eq_iter XOROSHIRO128_LONG_JUMP (by omega) Cert.Lin.Xoroshiro128.longJump_pow s
+
+theorem Xoroshiro128StarStar_jump_step_comm (s : S2 64) :
+    Xoroshiro128StarStar.jump (Xoroshiro128StarStar.step s) = Xoroshiro128StarStar.step (Xoroshiro128StarStar.jump s) :=
+  comm_step_of_eq_iter Xoroshiro128StarStar_jump s
+
+theorem Xoroshiro128StarStar_longJump_step_comm (s : S2 64) :
+    Xoroshiro128StarStar.longJump (Xoroshiro128StarStar.step s) = Xoroshiro128StarStar.step (Xoroshiro128StarStar.longJump s) :=
+  comm_step_of_eq_iter Xoroshiro128StarStar_longJump s
+
+theorem Xoroshiro128StarStar_jump_longJump_comm (s : S2 64) :
+    Xoroshiro128StarStar.jump (Xoroshiro128StarStar.longJump s) = Xoroshiro128StarStar.longJump (Xoroshiro128StarStar.jump s) :=
+  comm_of_eq_iter Xoroshiro128StarStar_jump Xoroshiro128StarStar_longJump s
+
+/-- `k` repeated `jump`s are `k · 2^64` steps: starting points `2^64` steps apart on the cycle. -/
+theorem Xoroshiro128StarStar_iter_jump (k : Nat) (s : S2 64) :
+    iter Xoroshiro128StarStar.jump k s = iter Xoroshiro128StarStar.step (k * 2 ^ 64) s :=
+  iter_of_eq_iter Xoroshiro128StarStar_jump k s
+
+theorem Xoroshiro128StarStar_jump_then_steps (i : Nat) (s : S2 64) :
+    iter Xoroshiro128StarStar.step i (Xoroshiro128StarStar.jump s) = iter Xoroshiro128StarStar.step (i + 2 ^ 64) s :=
+  iter_after_of_eq_iter Xoroshiro128StarStar_jump i s
+
+/-- every later output after `jump` is the output of the stepped generator -/
+theorem Xoroshiro128StarStar_jump_outputs (i : Nat) (s : S2 64) :
+    (Xoroshiro128StarStar.nextU64 (iter Xoroshiro128StarStar.step i (Xoroshiro128StarStar.jump s))).1 = (Xoroshiro128StarStar.nextU64 (iter Xoroshiro128StarStar.step (i + 2 ^ 64) s)).1 :=
+  congrArg (fun t => (Xoroshiro128StarStar.nextU64 t).1) (Xoroshiro128StarStar_jump_then_steps i s)
+
+/-- `k` repeated `longJump`s are `k · 2^96` steps: starting points `2^96` steps apart on the cycle. -/
+theorem Xoroshiro128StarStar_iter_longJump (k : Nat) (s : S2 64) :
+    iter Xoroshiro128StarStar.longJump k s = iter Xoroshiro128StarStar.step (k * 2 ^ 96) s :=
+  iter_of_eq_iter Xoroshiro128StarStar_longJump k s
+
+theorem Xoroshiro128StarStar_longJump_then_steps (i : Nat) (s : S2 64) :
+    iter Xoroshiro128StarStar.step i (Xoroshiro128StarStar.longJump s) = iter Xoroshiro128StarStar.step (i + 2 ^ 96) s :=
+  iter_after_of_eq_iter Xoroshiro128StarStar_longJump i s
+
+/-- every later output after `longJump` is the output of the stepped generator -/
+theorem Xoroshiro128StarStar_longJump_outputs (i : Nat) (s : S2 64) :
+    (Xoroshiro128StarStar.nextU64 (iter Xoroshiro128StarStar.step i (Xoroshiro128StarStar.longJump s))).1 = (Xoroshiro128StarStar.nextU64 (iter Xoroshiro128StarStar.step (i + 2 ^ 96) s)).1 :=
+  congrArg (fun t => (Xoroshiro128StarStar.nextU64 t).1) (Xoroshiro128StarStar_longJump_then_steps i s)
+
+/-! ### Xoshiro128Plus (128 state bits) -/
+
+/-- `Xoshiro128Plus::jump()` leaves the generator in the state reached by `2^64` calls of `next`. -/
+theorem Xoshiro128Plus_jump (s : S4 32) :
+    Xoshiro128Plus.jump s = iter Xoshiro128Plus.step (2 ^ 64) s :=
+  Cert.Lin.Xoshiro128.polyMod.jumpLoop_eq_iter XOSHIRO128_JUMP (by omega) Cert.Lin.Xoshiro128.jump_pow s
+
+/-- `Xoshiro128Plus::long_jump()` leaves the generator in the state reached by `2^96` calls of `next`. -/
+theorem Xoshiro128Plus_longJump (s : S4 32) :
+    Xoshiro128Plus.longJump s = iter Xoshiro128Plus.step (2 ^ 96) s :=
+  Cert.Lin.Xoshiro128.polyMod.jumpLoop_eq_iter XOSHIRO128_LONG_JUMP (by omega) Cert.Lin.Xoshiro128.longJump_pow s
+
+theorem Xoshiro128Plus_jump_step_comm (s : S4 32) :
+    Xoshiro128Plus.jump (Xoshiro128Plus.step s) = Xoshiro128Plus.step (Xoshiro128Plus.jump s) :=
+  comm_step_of_eq_iter Xoshiro128Plus_jump s
+
+theorem Xoshiro128Plus_longJump_step_comm (s : S4 32) :
+    Xoshiro128Plus.longJump (Xoshiro128Plus.step s) = Xoshiro128Plus.step (Xoshiro128Plus.longJump s) :=
+  comm_step_of_eq_iter Xoshiro128Plus_longJump s
+
+theorem Xoshiro128Plus_jump_longJump_comm (s : S4 32) :
+    Xoshiro128Plus.jump (Xoshiro128Plus.longJump s) = Xoshiro128Plus.longJump (Xoshiro128Plus.jump s) :=
+  comm_of_eq_iter Xoshiro128Plus_jump Xoshiro128Plus_longJump s
+
+/-- `k` repeated `jump`s are `k · 2^64` steps: starting points `2^64` steps apart on the cycle. -/
+theorem Xoshiro128Plus_iter_jump (k : Nat) (s : S4 32) :
+    iter Xoshiro128Plus.jump k s = iter Xoshiro128Plus.step (k * 2 ^ 64) s :=
+  iter_of_eq_iter Xoshiro128Plus_jump k s
+
+theorem Xoshiro128Plus_jump_then_steps (i : Nat) (s : S4 32) :
+    iter Xoshiro128Plus.step i (Xoshiro128Plus.jump s) = iter Xoshiro128Plus.step (i + 2 ^ 64) s :=
+  iter_after_of_eq_iter Xoshiro128Plus_jump i s
+
+/-- every later output after `jump` is the output of the stepped generator -/
+theorem Xoshiro128Plus_jump_outputs (i : Nat) (s : S4 32) :
+    (Xoshiro128Plus.nextU32 (iter Xoshiro128Plus.step i (Xoshiro128Plus.jump s))).1 = (Xoshiro128Plus.nextU32 (iter Xoshiro128Plus.step (i + 2 ^ 64) s)).1 :=
+  congrArg (fun t => (Xoshiro128Plus.nextU32 t).1) (Xoshiro128Plus_jump_then_steps i s)
+
+/-- `k` repeated `longJump`s are `k · 2^96` steps: starting points `2^96` steps apart on the cycle. -/
+theorem Xoshiro128Plus_iter_longJump (k : Nat) (s : S4 32) :
+    iter Xoshiro128Plus.longJump k s = iter Xoshiro128Plus.step (k * 2 ^ 96) s :=
+  iter_of_eq_iter Xoshiro128Plus_longJump k s
+
+theorem Xoshiro128Plus_longJump_then_steps (i : Nat) (s : S4 32) :
+    iter Xoshiro128Plus.step i (Xoshiro128Plus.longJump s) = iter Xoshiro128Plus.step (i + 2 ^ 96) s :=
+  iter_after_of_eq_iter Xoshiro128Plus_longJump i s
+
+/-- every later output after `longJump` is the output of the stepped generator -/
+theorem Xoshiro128Plus_longJump_outputs (i : Nat) (s : S4 32) :
+    (Xoshiro128Plus.nextU32 (iter Xoshiro128Plus.step i (Xoshiro128Plus.longJump s))).1 = (Xoshiro128Plus.nextU32 (iter Xoshiro128Plus.step (i + 2 ^ 96) s)).1 :=
+  congrArg (fun t => (Xoshiro128Plus.nextU32 t).1) (Xoshiro128Plus_longJump_then_steps i s)
+
+/-! ### Xoshiro128PlusPlus (128 state bits) -/
+
+/-- `Xoshiro128PlusPlus::jump()` leaves the generator in the state reached by `2^64` calls of `next`. -/
+theorem Xoshiro128PlusPlus_jump (s : S4 32) :
+    Xoshiro128PlusPlus.jump s = iter Xoshiro128PlusPlus.step (2 ^ 64) s :=
+  Cert.Lin.Xoshiro128.polyMod.jumpLoop_eq_iter XOSHIRO128_JUMP (by omega) Cert.Lin.Xoshiro128.jump_pow s
+
+/-- `Xoshiro128PlusPlus::long_jump()` leaves the generator in the state reached by `2^96` calls of `next`. -/
+theorem Xoshiro128PlusPlus_longJump (s : S4 32) :
+    Xoshiro128PlusPlus.longJump s = iter Xoshiro128PlusPlus.step (2 ^ 96) s :=
+  Cert.Lin.Xoshiro128.polyMod.jumpLoop_eq_iter XOSHIRO128_LONG_JUMP (by omega) Cert.Lin.Xoshiro128.longJump_pow s
+
+theorem Xoshiro128PlusPlus_jump_step_comm (s : S4 32) :
+    Xoshiro128PlusPlus.jump (Xoshiro128PlusPlus.step s) = Xoshiro128PlusPlus.step (Xoshiro128PlusPlus.jump s) :=
+  comm_step_of_eq_iter Xoshiro128PlusPlus_jump s
+
+theorem Xoshiro128PlusPlus_longJump_step_comm (s : S4 32) :
+    Xoshiro128PlusPlus.longJump (Xoshiro128PlusPlus.step s) = Xoshiro128PlusPlus.step (Xoshiro128PlusPlus.longJump s) :=
+  comm_step_of_eq_iter Xoshiro128PlusPlus_longJump s
+
+theorem Xoshiro128PlusPlus_jump_longJump_comm (s : S4 32) :
+    Xoshiro128PlusPlus.jump (Xoshiro128PlusPlus.longJump s) = Xoshiro128PlusPlus.longJump (Xoshiro128PlusPlus.jump s) :=
+  comm_of_eq_iter Xoshiro128PlusPlus_jump Xoshiro128PlusPlus_longJump s
+
+/-- `k` repeated `jump`s are `k · 2^64` steps: starting points `2^64` steps apart on the cycle. -/
+theorem Xoshiro128PlusPlus_iter_jump (k : Nat) (s : S4 32) :
+    iter Xoshiro128PlusPlus.jump k s = iter Xoshiro128PlusPlus.step (k * 2 ^ 64) s :=
+  iter_of_eq_iter Xoshiro128PlusPlus_jump k s
+
+theorem Xoshiro128PlusPlus_jump_then_steps (i : Nat) (s : S4 32) :
+    iter Xoshiro128PlusPlus.step i (Xoshiro128PlusPlus.jump s) = iter Xoshiro128PlusPlus.step (i + 2 ^ 64) s :=
+  iter_after_of_eq_iter Xoshiro128PlusPlus_jump i s
+
+/-- every later output after `jump` is the output of the stepped generator -/
+theorem Xoshiro128PlusPlus_jump_outputs (i : Nat) (s : S4 32) :
+    (Xoshiro128PlusPlus.nextU32 (iter Xoshiro128PlusPlus.step i (Xoshiro128PlusPlus.jump s))).1 = (Xoshiro128PlusPlus.nextU32 (iter Xoshiro128PlusPlus.step (i + 2 ^ 64) s)).1 :=
+  congrArg (fun t => (Xoshiro128PlusPlus.nextU32 t).1) (Xoshiro128PlusPlus_jump_then_steps i s)
+
+/-- `k` repeated `longJump`s are `k · 2^96` steps: starting points `2^96` steps apart on the cycle. -/
+theorem Xoshiro128PlusPlus_iter_longJump (k : Nat) (s : S4 32) :
+    iter Xoshiro128PlusPlus.longJump k s = iter Xoshiro128PlusPlus.step (k * 2 ^ 96) s :=
+  iter_of_eq_iter Xoshiro128PlusPlus_longJump k s
+
+theorem Xoshiro128PlusPlus_longJump_then_steps (i : Nat) (s : S4 32) :
+    iter Xoshiro128PlusPlus.step i (Xoshiro128PlusPlus.longJump s) = iter Xoshiro128PlusPlus.step (i + 2 ^ 96) s :=
+  iter_after_of_eq_iter Xoshiro128PlusPlus_longJump i s
+
+/-- every later output after `longJump` is the output of the stepped generator -/
+theorem Xoshiro128PlusPlus_longJump_outputs (i : Nat) (s : S4 32) :
+    (Xoshiro128PlusPlus.nextU32 (iter Xoshiro128PlusPlus.step i (Xoshiro128PlusPlus.longJump s))).1 = (Xoshiro128PlusPlus.nextU32 (iter Xoshiro128PlusPlus.step (i + 2 ^ 96) s)).1 :=
+  congrArg (fun t => (Xoshiro128PlusPlus.nextU32 t).1) (Xoshiro128PlusPlus_longJump_then_steps i s)
+
+/-! ### Xoshiro128StarStar (128 state bits) -/
+
+/-- `Xoshiro128StarStar::jump()` leaves the generator in the state reached by `2^64` calls of `next`. -/
+theorem Xoshiro128StarStar_jump (s : S4 32) :
+    Xoshiro128StarStar.jump s = iter Xoshiro128StarStar.step (2 ^ 64) s :=
+  Cert.Lin.Xoshiro128.polyMod.jumpLoop_eq_iter XOSHIRO128_JUMP (by omega) Cert.Lin.Xoshiro128.jump_pow s
+
+/-- `Xoshiro128StarStar::long_jump()` leaves the generator in the state reached by `2^96` calls of `next`. -/
+theorem Xoshiro128StarStar_longJump (s : S4 32) :
+    Xoshiro128StarStar.longJump s = iter Xoshiro128StarStar.step (2 ^ 96) s :=
+  Cert.Lin.Xoshiro128.polyMod.jumpLoop_eq_iter XOSHIRO128_LONG_JUMP (by omega) Cert.Lin.Xoshiro128.longJump_pow s
+
+theorem Xoshiro128StarStar_jump_step_comm (s : S4 32) :
+    Xoshiro128StarStar.jump (Xoshiro128StarStar.step s) = Xoshiro128StarStar.step (Xoshiro128StarStar.jump s) :=
+  comm_step_of_eq_iter Xoshiro128StarStar_jump s
+
+theorem Xoshiro128StarStar_longJump_step_comm (s : S4 32) :
+    Xoshiro128StarStar.longJump (Xoshiro128StarStar.step s) = Xoshiro128StarStar.step (Xoshiro128StarStar.longJump s) :=
+  comm_step_of_eq_iter Xoshiro128StarStar_longJump s
+
+theorem Xoshiro128StarStar_jump_longJump_comm (s : S4 32) :
+    Xoshiro128StarStar.jump (Xoshiro128StarStar.longJump s) = Xoshiro128StarStar.longJump (Xoshiro128StarStar.jump s) :=
+  comm_of_eq_iter Xoshiro128StarStar_jump Xoshiro128StarStar_longJump s
+
+/-- `k` repeated `jump`s are `k · 2^64` steps: starting points `2^64` steps apart on the cycle. -/
+theorem Xoshiro128StarStar_iter_jump (k : Nat) (s : S4 32) :
+    iter Xoshiro128StarStar.jump k s = iter Xoshiro128StarStar.step (k * 2 ^ 64) s :=
+  iter_of_eq_iter Xoshiro128StarStar_jump k s
+
+theorem Xoshiro128StarStar_jump_then_steps (i : Nat) (s : S4 32) :
+    iter Xoshiro128StarStar.step i (Xoshiro128StarStar.jump s) = iter Xoshiro128StarStar.step (i + 2 ^ 64) s :=
+  iter_after_of_eq_iter Xoshiro128StarStar_jump i s
+
+/-- every later output after `jump` is the output of the stepped generator -/
+theorem Xoshiro128StarStar_jump_outputs (i : Nat) (s : S4 32) :
+    (Xoshiro128StarStar.nextU32 (iter Xoshiro128StarStar.step i (Xoshiro128StarStar.jump s))).1 = (Xoshiro128StarStar.nextU32 (iter Xoshiro128StarStar.step (i + 2 ^ 64) s)).1 :=
+  congrArg (fun t => (Xoshiro128StarStar.nextU32 t).1) (Xoshiro128StarStar_jump_then_steps i s)
+
+/-- `k` repeated `longJump`s are `k · 2^96` steps: starting points `2^96` steps apart on the cycle. -/
+theorem Xoshiro128StarStar_iter_longJump (k : Nat) (s : S4 32) :
+    iter Xoshiro128StarStar.longJump k s = iter Xoshiro128StarStar.step (k * 2 ^ 96) s :=
+  iter_of_eq_iter Xoshiro128StarStar_longJump k s
+
+theorem Xoshiro128StarStar_longJump_then_steps (i : Nat) (s : S4 32) :
+    iter Xoshiro128StarStar.step i (Xoshiro128StarStar.longJump s) = iter Xoshiro128StarStar.step (i + 2 ^ 96) s :=
+  iter_after_of_eq_iter Xoshiro128StarStar_longJump i s
+
+/-- every later output after `longJump` is the output of the stepped generator -/
+theorem Xoshiro128StarStar_longJump_outputs (i : Nat) (s : S4 32) :
+    (Xoshiro128StarStar.nextU32 (iter Xoshiro128StarStar.step i (Xoshiro128StarStar.longJump s))).1 = (Xoshiro128StarStar.nextU32 (iter Xoshiro128StarStar.step (i + 2 ^ 96) s)).1 :=
+  congrArg (fun t => (Xoshiro128StarStar.nextU32 t).1) (Xoshiro128StarStar_longJump_then_steps i s)
+
+/-! ### Xoshiro256Plus (256 state bits) -/
+
+/-- `Xoshiro256Plus::jump()` leaves the generator in the state reached by `2^128` calls of `next`. -/
+theorem Xoshiro256Plus_jump (s : S4 64) :
+    Xoshiro256Plus.jump s = iter Xoshiro256Plus.step (2 ^ 128) s :=
+  Cert.Lin.Xoshiro256.polyMod.jumpLoop_eq_iter XOSHIRO256_JUMP (by omega) Cert.Lin.Xoshiro256.jump_pow s
+
+/-- `Xoshiro256Plus::long_jump()` leaves the generator in the state reached by `2^192` calls of `next`. -/
+theorem Xoshiro256Plus_longJump (s : S4 64) :
+    Xoshiro256Plus.longJump s = iter Xoshiro256Plus.step (2 ^ 192) s :=
+  Cert.Lin.Xoshiro256.polyMod.jumpLoop_eq_iter XOSHIRO256_LONG_JUMP (by omega) Cert.Lin.Xoshiro256.longJump_pow s
+
+theorem Xoshiro256Plus_jump_step_comm (s : S4 64) :
+    Xoshiro256Plus.jump (Xoshiro256Plus.step s) = Xoshiro256Plus.step (Xoshiro256Plus.jump s) :=
+  comm_step_of_eq_iter Xoshiro256Plus_jump s
+
+theorem Xoshiro256Plus_longJump_step_comm (s : S4 64) :
+    Xoshiro256Plus.longJump (Xoshiro256Plus.step s) = Xoshiro256Plus.step (Xoshiro256Plus.longJump s) :=
+  comm_step_of_eq_iter Xoshiro256Plus_longJump s
+
+theorem Xoshiro256Plus_jump_longJump_comm (s : S4 64) :
+    Xoshiro256Plus.jump (Xoshiro256Plus.longJump s) = Xoshiro256Plus.longJump (Xoshiro256Plus.jump s) :=
+  comm_of_eq_iter Xoshiro256Plus_jump Xoshiro256Plus_longJump s
+
+/-- `k` repeated `jump`s are `k · 2^128` steps: starting points `2^128` steps apart on the cycle. -/
+theorem Xoshiro256Plus_iter_jump (k : Nat) (s : S4 64) :
+    iter Xoshiro256Plus.jump k s = iter Xoshiro256Plus.step (k * 2 ^ 128) s :=
+  iter_of_eq_iter Xoshiro256Plus_jump k s
+
+theorem Xoshiro256Plus_jump_then_steps (i : Nat) (s : S4 64) :
+    iter Xoshiro256Plus.step i (Xoshiro256Plus.jump s) = iter Xoshiro256Plus.step (i + 2 ^ 128) s :=
+  iter_after_of_eq_iter Xoshiro256Plus_jump i s
+
+/-- every later output after `jump` is the output of the stepped generator -/
+theorem Xoshiro256Plus_jump_outputs (i : Nat) (s : S4 64) :
+    (Xoshiro256Plus.nextU64 (iter Xoshiro256Plus.step i (Xoshiro256Plus.jump s))).1 = (Xoshiro256Plus.nextU64 (iter Xoshiro256Plus.step (i + 2 ^ 128) s)).1 :=
+  congrArg (fun t => (Xoshiro256Plus.nextU64 t).1) (Xoshiro256Plus_jump_then_steps i s)
+
+/-- `k` repeated `longJump`s are `k · 2^192` steps: starting points `2^192` steps apart on the cycle. -/
+theorem Xoshiro256Plus_iter_longJump (k : Nat) (s : S4 64) :
+    iter Xoshiro256Plus.longJump k s = iter Xoshiro256Plus.step (k * 2 ^ 192) s :=
+  iter_of_eq_iter Xoshiro256Plus_longJump k s
+
+theorem Xoshiro256Plus_longJump_then_steps (i : Nat) (s : S4 64) :
+    iter Xoshiro256Plus.step i (Xoshiro256Plus.longJump s) = iter Xoshiro256Plus.step (i + 2 ^ 192) s :=
+  iter_after_of_eq_iter Xoshiro256Plus_longJump i s
+
+/-- every later output after `longJump` is the output of the stepped generator -/
+theorem Xoshiro256Plus_longJump_outputs (i : Nat) (s : S4 64) :
+    (Xoshiro256Plus.nextU64 (iter Xoshiro256Plus.step i (Xoshiro256Plus.longJump s))).1 = (Xoshiro256Plus.nextU64 (iter Xoshiro256Plus.step (i + 2 ^ 192) s)).1 :=
+  congrArg (fun t => (Xoshiro256Plus.nextU64 t).1) (Xoshiro256Plus_longJump_then_steps i s)
+
+/-! ### Xoshiro256PlusPlus (256 state bits) -/
+
+/-- `Xoshiro256PlusPlus::jump()` leaves the generator in the state reached by `2^128` calls of `next`. -/
+theorem Xoshiro256PlusPlus_jump (s : S4 64) :
+    Xoshiro256PlusPlus.jump s = iter Xoshiro256PlusPlus.step (2 ^ 128) s :=
+  Cert.Lin.Xoshiro256.polyMod.jumpLoop_eq_iter XOSHIRO256_JUMP (by omega) Cert.Lin.Xoshiro256.jump_pow s
+
+/-- `Xoshiro256PlusPlus::long_jump()` leaves the generator in the state reached by `2^192` calls of `next`. -/
+theorem Xoshiro256PlusPlus_longJump (s : S4 64) :
+    Xoshiro256PlusPlus.longJump s = iter Xoshiro256PlusPlus.step (2 ^ 192) s :=
+  Cert.Lin.Xoshiro256.polyMod.jumpLoop_eq_iter XOSHIRO256_LONG_JUMP (by omega) Cert.Lin.Xoshiro256.longJump_pow s
+
+theorem Xoshiro256PlusPlus_jump_step_comm (s : S4 64) :
+    Xoshiro256PlusPlus.jump (Xoshiro256PlusPlus.step s) = Xoshiro256PlusPlus.step (Xoshiro256PlusPlus.jump s) :=
+  comm_step_of_eq_iter Xoshiro256PlusPlus_jump s
+
+theorem Xoshiro256PlusPlus_longJump_step_comm (s : S4 64) :
+    Xoshiro256PlusPlus.longJump (Xoshiro256PlusPlus.step s) = Xoshiro256PlusPlus.step (Xoshiro256PlusPlus.longJump s) :=
+  comm_step_of_eq_iter Xoshiro256PlusPlus_longJump s
+
+theorem Xoshiro256PlusPlus_jump_longJump_comm (s : S4 64) :
+    Xoshiro256PlusPlus.jump (Xoshiro256PlusPlus.longJump s) = Xoshiro256PlusPlus.longJump (Xoshiro256PlusPlus.jump s) :=
+  comm_of_eq_iter Xoshiro256PlusPlus_jump Xoshiro256PlusPlus_longJump s
+
+/-- `k` repeated `jump`s are `k · 2^128` steps: starting points `2^128` steps apart on the cycle. -/
+theorem Xoshiro256PlusPlus_iter_jump (k : Nat) (s : S4 64) :
+    iter Xoshiro256PlusPlus.jump k s = iter Xoshiro256PlusPlus.step (k * 2 ^ 128) s :=
+  iter_of_eq_iter Xoshiro256PlusPlus_jump k s
+
+theorem Xoshiro256PlusPlus_jump_then_steps (i : Nat) (s : S4 64) :
+    iter Xoshiro256PlusPlus.step i (Xoshiro256PlusPlus.jump s) = iter Xoshiro256PlusPlus.step (i + 2 ^ 128) s :=
+  iter_after_of_eq_iter Xoshiro256PlusPlus_jump i s
+
+/-- every later output after `jump` is the output of the stepped generator -/
+theorem Xoshiro256PlusPlus_jump_outputs (i : Nat) (s : S4 64) :
+    (Xoshiro256PlusPlus.nextU64 (iter Xoshiro256PlusPlus.step i (Xoshiro256PlusPlus.jump s))).1 = (Xoshiro256PlusPlus.nextU64 (iter Xoshiro256PlusPlus.step (i + 2 ^ 128) s)).1 :=
+  congrArg (fun t => (Xoshiro256PlusPlus.nextU64 t).1) (Xoshiro256PlusPlus_jump_then_steps i s)
+
+/-- `k` repeated `longJump`s are `k · 2^192` steps: starting points `2^192` steps apart on the cycle. -/
+theorem Xoshiro256PlusPlus_iter_longJump (k : Nat) (s : S4 64) :
+    iter Xoshiro256PlusPlus.longJump k s = iter Xoshiro256PlusPlus.step (k * 2 ^ 192) s :=
+  iter_of_eq_iter Xoshiro256PlusPlus_longJump k s
+
+theorem Xoshiro256PlusPlus_longJump_then_steps (i : Nat) (s : S4 64) :
+    iter Xoshiro256PlusPlus.step i (Xoshiro256PlusPlus.longJump s) = iter Xoshiro256PlusPlus.step (i + 2 ^ 192) s :=
+  iter_after_of_eq_iter Xoshiro256PlusPlus_longJump i s
+
+/-- every later output after `longJump` is the output of the stepped generator -/
+theorem Xoshiro256PlusPlus_longJump_outputs (i : Nat) (s : S4 64) :
+    (Xoshiro256PlusPlus.nextU64 (iter Xoshiro256PlusPlus.step i (Xoshiro256PlusPlus.longJump s))).1 = (Xoshiro256PlusPlus.nextU64 (iter Xoshiro256PlusPlus.step (i + 2 ^ 192) s)).1 :=
+  congrArg (fun t => (Xoshiro256PlusPlus.nextU64 t).1) (Xoshiro256PlusPlus_longJump_then_steps i s)
+
+/-! ### Xoshiro256StarStar (256 state bits) -/
+
+/-- `Xoshiro256StarStar::jump()` leaves the generator in the state reached by `2^128` calls of `next`. -/
+theorem Xoshiro256StarStar_jump (s : S4 64) :
+    Xoshiro256StarStar.jump s = iter Xoshiro256StarStar.step (2 ^ 128) s :=
+  Cert.Lin.Xoshiro256.polyMod.jumpLoop_eq_iter XOSHIRO256_JUMP (by omega) Cert.Lin.Xoshiro256.jump_pow s
+
+/-- `Xoshiro256StarStar::long_jump()` leaves the generator in the state reached by `2^192` calls of `next`. -/
+theorem Xoshiro256StarStar_longJump (s : S4 64) :
+    Xoshiro256StarStar.longJump s = iter Xoshiro256StarStar.step (2 ^ 192) s :=
+  Cert.Lin.Xoshiro256.polyMod.jumpLoop_eq_iter XOSHIRO256_LONG_JUMP (by omega) Cert.Lin.Xoshiro256.longJump_pow s
+
+theorem Xoshiro256StarStar_jump_step_comm (s : S4 64) :
+    Xoshiro256StarStar.jump (Xoshiro256StarStar.step s) = Xoshiro256StarStar.step (Xoshiro256StarStar.jump s) :=
+  comm_step_of_eq_iter Xoshiro256StarStar_jump s
+
+theorem Xoshiro256StarStar_longJump_step_comm (s : S4 64) :
+    Xoshiro256StarStar.longJump (Xoshiro256StarStar.step s) = Xoshiro256StarStar.step (Xoshiro256StarStar.longJump s) :=
+  comm_step_of_eq_iter Xoshiro256StarStar_longJump s
+
+theorem Xoshiro256StarStar_jump_longJump_comm (s : S4 64) :
+    Xoshiro256StarStar.jump (Xoshiro256StarStar.longJump s) = Xoshiro256StarStar.longJump (Xoshiro256StarStar.jump s) :=
+  comm_of_eq_iter Xoshiro256StarStar_jump Xoshiro256StarStar_longJump s
+
+/-- `k` repeated `jump`s are `k · 2^128` steps: starting points `2^128` steps apart on the cycle. -/
+theorem Xoshiro256StarStar_iter_jump (k : Nat) (s : S4 64) :
+    iter Xoshiro256StarStar.jump k s = iter Xoshiro256StarStar.step (k * 2 ^ 128) s :=
+  iter_of_eq_iter Xoshiro256StarStar_jump k s
+
+theorem Xoshiro256StarStar_jump_then_steps (i : Nat) (s : S4 64) :
+    iter Xoshiro256StarStar.step i (Xoshiro256StarStar.jump s) = iter Xoshiro256StarStar.step (i + 2 ^ 128) s :=
+  iter_after_of_eq_iter Xoshiro256StarStar_jump i s
+
+/-- every later output after `jump` is the output of the stepped generator -/
+theorem Xoshiro256StarStar_jump_outputs (i : Nat) (s : S4 64) :
+    (Xoshiro256StarStar.nextU64 (iter Xoshiro256StarStar.step i (Xoshiro256StarStar.jump s))).1 = (Xoshiro256StarStar.nextU64 (iter Xoshiro256StarStar.step (i + 2 ^ 128) s)).1 :=
+  congrArg (fun t => (Xoshiro256StarStar.nextU64 t).1) (Xoshiro256StarStar_jump_then_steps i s)
+
+/-- `k` repeated `longJump`s are `k · 2^192` steps: starting points `2^192` steps apart on the cycle. -/
+theorem Xoshiro256StarStar_iter_longJump (k : Nat) (s : S4 64) :
+    iter Xoshiro256StarStar.longJump k s = iter Xoshiro256StarStar.step (k * 2 ^ 192) s :=
+  iter_of_eq_iter Xoshiro256StarStar_longJump k s
+
+theorem Xoshiro256StarStar_longJump_then_steps (i : Nat) (s : S4 64) :
+    iter Xoshiro256StarStar.step i (Xoshiro256StarStar.longJump s) = iter Xoshiro256StarStar.step (i + 2 ^ 192) s :=
+  iter_after_of_eq_iter Xoshiro256StarStar_longJump i s
+
+/-- every later output after `longJump` is the output of the stepped generator -/
+theorem Xoshiro256StarStar_longJump_outputs (i : Nat) (s : S4 64) :
+    (Xoshiro256StarStar.nextU64 (iter Xoshiro256StarStar.step i (Xoshiro256StarStar.longJump s))).1 = (Xoshiro256StarStar.nextU64 (iter Xoshiro256StarStar.step (i + 2 ^ 192) s)).1 :=
+  congrArg (fun t => (Xoshiro256StarStar.nextU64 t).1) (Xoshiro256StarStar_longJump_then_steps i s)
+
+/-! ### Xoshiro512Plus (512 state bits) -/
+
+/-- `Xoshiro512Plus::jump()` leaves the generator in the state reached by `2^256` calls of `next`. -/
+theorem Xoshiro512Plus_jump (s : S8) :
+    Xoshiro512Plus.jump s = iter Xoshiro512Plus.step (2 ^ 256) s :=
+  Cert.Lin.Xoshiro512.polyMod.jumpLoop_eq_iter XOSHIRO512_JUMP (by omega) Cert.Lin.Xoshiro512.jump_pow s
+
+/-- `Xoshiro512Plus::long_jump()` leaves the generator in the state reached by `2^384` calls of `next`. -/
+theorem Xoshiro512Plus_longJump (s : S8) :
+    Xoshiro512Plus.longJump s = iter Xoshiro512Plus.step (2 ^ 384) s :=
+  Cert.Lin.Xoshiro512.polyMod.jumpLoop_eq_iter XOSHIRO512_LONG_JUMP (by omega) Cert.Lin.Xoshiro512.longJump_pow s
+
+theorem Xoshiro512Plus_jump_step_comm (s : S8) :
+    Xoshiro512Plus.jump (Xoshiro512Plus.step s) = Xoshiro512Plus.step (Xoshiro512Plus.jump s) :=
+  comm_step_of_eq_iter Xoshiro512Plus_jump s
+
+theorem Xoshiro512Plus_longJump_step_comm (s : S8) :
+    Xoshiro512Plus.longJump (Xoshiro512Plus.step s) = Xoshiro512Plus.step (Xoshiro512Plus.longJump s) :=
+  comm_step_of_eq_iter Xoshiro512Plus_longJump s
+
+theorem Xoshiro512Plus_jump_longJump_comm (s : S8) :
+    Xoshiro512Plus.jump (Xoshiro512Plus.longJump s) = Xoshiro512Plus.longJump (Xoshiro512Plus.jump s) :=
+  comm_of_eq_iter Xoshiro512Plus_jump Xoshiro512Plus_longJump s
+
+/-- `k` repeated `jump`s are `k · 2^256` steps: starting points `2^256` steps apart on the cycle. -/
+theorem Xoshiro512Plus_iter_jump (k : Nat) (s : S8) :
+    iter Xoshiro512Plus.jump k s = iter Xoshiro512Plus.step (k * 2 ^ 256) s :=
+  iter_of_eq_iter Xoshiro512Plus_jump k s
+
+theorem Xoshiro512Plus_jump_then_steps (i : Nat) (s : S8) :
+    iter Xoshiro512Plus.step i (Xoshiro512Plus.jump s) = iter Xoshiro512Plus.step (i + 2 ^ 256) s :=
+  iter_after_of_eq_iter Xoshiro512Plus_jump i s
+
+/-- every later output after `jump` is the output of the stepped generator -/
+theorem Xoshiro512Plus_jump_outputs (i : Nat) (s : S8) :
+    (Xoshiro512Plus.nextU64 (iter Xoshiro512Plus.step i (Xoshiro512Plus.jump s))).1 = (Xoshiro512Plus.nextU64 (iter Xoshiro512Plus.step (i + 2 ^ 256) s)).1 :=
+  congrArg (fun t => (Xoshiro512Plus.nextU64 t).1) (Xoshiro512Plus_jump_then_steps i s)
+
+/-- `k` repeated `longJump`s are `k · 2^384` steps: starting points `2^384` steps apart on the cycle. -/
+theorem Xoshiro512Plus_iter_longJump (k : Nat) (s : S8) :
+    iter Xoshiro512Plus.longJump k s = iter Xoshiro512Plus.step (k * 2 ^ 384) s :=
+  iter_of_eq_iter Xoshiro512Plus_longJump k s
+
+theorem Xoshiro512Plus_longJump_then_steps (i : Nat) (s : S8) :
+    iter Xoshiro512Plus.step i (Xoshiro512Plus.longJump s) = iter Xoshiro512Plus.step (i + 2 ^ 384) s :=
+  iter_after_of_eq_iter Xoshiro512Plus_longJump i s
+
+/-- every later output after `longJump` is the output of the stepped generator -/
+theorem Xoshiro512Plus_longJump_outputs (i : Nat) (s : S8) :
+    (Xoshiro512Plus.nextU64 (iter Xoshiro512Plus.step i (Xoshiro512Plus.longJump s))).1 = (Xoshiro512Plus.nextU64 (iter Xoshiro512Plus.step (i + 2 ^ 384) s)).1 :=
+  congrArg (fun t => (Xoshiro512Plus.nextU64 t).1) (Xoshiro512Plus_longJump_then_steps i s)
+
+/-! ### Xoshiro512PlusPlus (512 state bits) -/
+
+/-- `Xoshiro512PlusPlus::jump()` leaves the generator in the state reached by `2^256` calls of `next`. -/
+theorem Xoshiro512PlusPlus_jump (s : S8) :
+    Xoshiro512PlusPlus.jump s = iter Xoshiro512PlusPlus.step (2 ^ 256) s :=
+  Cert.Lin.Xoshiro512.polyMod.jumpLoop_eq_iter XOSHIRO512_JUMP (by omega) Cert.Lin.Xoshiro512.jump_pow s
+
+/-- `Xoshiro512PlusPlus::long_jump()` leaves the generator in the state reached by `2^384` calls of `next`. -/
+theorem Xoshiro512PlusPlus_longJump (s : S8) :
+    Xoshiro512PlusPlus.longJump s = iter Xoshiro512PlusPlus.step (2 ^ 384) s :=
+  Cert.Lin.Xoshiro512.polyMod.jumpLoop_eq_iter XOSHIRO512_LONG_JUMP (by omega) Cert.Lin.Xoshiro512.longJump_pow s
+
+theorem Xoshiro512PlusPlus_jump_step_comm (s : S8) :
+    Xoshiro512PlusPlus.jump (Xoshiro512PlusPlus.step s) = Xoshiro512PlusPlus.step (Xoshiro512PlusPlus.jump s) :=
+  comm_step_of_eq_iter Xoshiro512PlusPlus_jump s
+
+theorem Xoshiro512PlusPlus_longJump_step_comm (s : S8) :
+    Xoshiro512PlusPlus.longJump (Xoshiro512PlusPlus.step s) = Xoshiro512PlusPlus.step (Xoshiro512PlusPlus.longJump s) :=
+  comm_step_of_eq_iter Xoshiro512PlusPlus_longJump s
+
+theorem Xoshiro512PlusPlus_jump_longJump_comm (s : S8) :
+    Xoshiro512PlusPlus.jump (Xoshiro512PlusPlus.longJump s) = Xoshiro512PlusPlus.longJump (Xoshiro512PlusPlus.jump s) :=
+  comm_of_eq_iter Xoshiro512PlusPlus_jump Xoshiro512PlusPlus_longJump s
+
+/-- `k` repeated `jump`s are `k · 2^256` steps: starting points `2^256` steps apart on the cycle. -/
+theorem Xoshiro512PlusPlus_iter_jump (k : Nat) (s : S8) :
+    iter Xoshiro512PlusPlus.jump k s = iter Xoshiro512PlusPlus.step (k * 2 ^ 256) s :=
+  iter_of_eq_iter Xoshiro512PlusPlus_jump k s
+
+theorem Xoshiro512PlusPlus_jump_then_steps (i : Nat) (s : S8) :
+    iter Xoshiro512PlusPlus.step i (Xoshiro512PlusPlus.jump s) = iter Xoshiro512PlusPlus.step (i + 2 ^ 256) s :=
+  iter_after_of_eq_iter Xoshiro512PlusPlus_jump i s
+
+/-- every later output after `jump` is the output of the stepped generator -/
+theorem Xoshiro512PlusPlus_jump_outputs (i : Nat) (s : S8) :
+    (Xoshiro512PlusPlus.nextU64 (iter Xoshiro512PlusPlus.step i (Xoshiro512PlusPlus.jump s))).1 = (Xoshiro512PlusPlus.nextU64 (iter Xoshiro512PlusPlus.step (i + 2 ^ 256) s)).1 :=
+  congrArg (fun t => (Xoshiro512PlusPlus.nextU64 t).1) (Xoshiro512PlusPlus_jump_then_steps i s)
+
+/-- `k` repeated `longJump`s are `k · 2^384` steps: starting points `2^384` steps apart on the cycle. -/
+theorem Xoshiro512PlusPlus_iter_longJump (k : Nat) (s : S8) :
+    iter Xoshiro512PlusPlus.longJump k s = iter Xoshiro512PlusPlus.step (k * 2 ^ 384) s :=
+  iter_of_eq_iter Xoshiro512PlusPlus_longJump k s
+
+theorem Xoshiro512PlusPlus_longJump_then_steps (i : Nat) (s : S8) :
+    iter Xoshiro512PlusPlus.step i (Xoshiro512PlusPlus.longJump s) = iter Xoshiro512PlusPlus.step (i + 2 ^ 384) s :=
+  iter_after_of_eq_iter Xoshiro512PlusPlus_longJump i s
+
+/-- every later output after `longJump` is the output of the stepped generator -/
+theorem Xoshiro512PlusPlus_longJump_outputs (i : Nat) (s : S8) :
+    (Xoshiro512PlusPlus.nextU64 (iter Xoshiro512PlusPlus.step i (Xoshiro512PlusPlus.longJump s))).1 = (Xoshiro512PlusPlus.nextU64 (iter Xoshiro512PlusPlus.step (i + 2 ^ 384) s)).1 :=
+  congrArg (fun t => (Xoshiro512PlusPlus.nextU64 t).1) (Xoshiro512PlusPlus_longJump_then_steps i s)
+
+/-! ### Xoshiro512StarStar (512 state bits) -/
+
+/-- `Xoshiro512StarStar::jump()` leaves the generator in the state reached by `2^256` calls of `next`. -/
+theorem Xoshiro512StarStar_jump (s : S8) :
+    Xoshiro512StarStar.jump s = iter Xoshiro512StarStar.step (2 ^ 256) s :=
+  Cert.Lin.Xoshiro512.polyMod.jumpLoop_eq_iter XOSHIRO512_JUMP (by omega) Cert.Lin.Xoshiro512.jump_pow s
+
+/-- `Xoshiro512StarStar::long_jump()` leaves the generator in the state reached by `2^384` calls of `next`. -/
+theorem Xoshiro512StarStar_longJump (s : S8) :
+    Xoshiro512StarStar.longJump s = iter Xoshiro512StarStar.step (2 ^ 384) s :=
+  Cert.Lin.Xoshiro512.polyMod.jumpLoop_eq_iter XOSHIRO512_LONG_JUMP (by omega) Cert.Lin.Xoshiro512.longJump_pow s
+
+theorem Xoshiro512StarStar_jump_step_comm (s : S8) :
+    Xoshiro512StarStar.jump (Xoshiro512StarStar.step s) = Xoshiro512StarStar.step (Xoshiro512StarStar.jump s) :=
+  comm_step_of_eq_iter Xoshiro512StarStar_jump s
+
+theorem Xoshiro512StarStar_longJump_step_comm (s : S8) :
+    Xoshiro512StarStar.longJump (Xoshiro512StarStar.step s) = Xoshiro512StarStar.step (Xoshiro512StarStar.longJump s) :=
+  comm_step_of_eq_iter Xoshiro512StarStar_longJump s
+
+theorem Xoshiro512StarStar_jump_longJump_comm (s : S8) :
+    Xoshiro512StarStar.jump (Xoshiro512StarStar.longJump s) = Xoshiro512StarStar.longJump (Xoshiro512StarStar.jump s) :=
+  comm_of_eq_iter Xoshiro512StarStar_jump Xoshiro512StarStar_longJump s
+
+/-- `k` repeated `jump`s are `k · 2^256` steps: starting points `2^256` steps apart on the cycle. -/
+theorem Xoshiro512StarStar_iter_jump (k : Nat) (s : S8) :
+    iter Xoshiro512StarStar.jump k s = iter Xoshiro512StarStar.step (k * 2 ^ 256) s :=
+  iter_of_eq_iter Xoshiro512StarStar_jump k s
+
+theorem Xoshiro512StarStar_jump_then_steps (i : Nat) (s : S8) :
+    iter Xoshiro512StarStar.step i (Xoshiro512StarStar.jump s) = iter Xoshiro512StarStar.step (i + 2 ^ 256) s :=
+  iter_after_of_eq_iter Xoshiro512StarStar_jump i s
+
+/-- every later output after `jump` is the output of the stepped generator -/
+theorem Xoshiro512StarStar_jump_outputs (i : Nat) (s : S8) :
+    (Xoshiro512StarStar.nextU64 (iter Xoshiro512StarStar.step i (Xoshiro512StarStar.jump s))).1 = (Xoshiro512StarStar.nextU64 (iter Xoshiro512StarStar.step (i + 2 ^ 256) s)).1 :=
+  congrArg (fun t => (Xoshiro512StarStar.nextU64 t).1) (Xoshiro512StarStar_jump_then_steps i s)
+
+/-- `k` repeated `longJump`s are `k · 2^384` steps: starting points `2^384` steps apart on the cycle. -/
+theorem Xoshiro512StarStar_iter_longJump (k : Nat) (s : S8) :
+    iter Xoshiro512StarStar.longJump k s = iter Xoshiro512StarStar.step (k * 2 ^ 384) s :=
+  iter_of_eq_iter Xoshiro512StarStar_longJump k s
+
+theorem Xoshiro512StarStar_longJump_then_steps (i : Nat) (s : S8) :
+    iter Xoshiro512StarStar.step i (Xoshiro512StarStar.longJump s) = iter Xoshiro512StarStar.step (i + 2 ^ 384) s :=
+  iter_after_of_eq_iter Xoshiro512StarStar_longJump i s
+
+/-- every later output after `longJump` is the output of the stepped generator -/
+theorem Xoshiro512StarStar_longJump_outputs (i : Nat) (s : S8) :
+    (Xoshiro512StarStar.nextU64 (iter Xoshiro512StarStar.step i (Xoshiro512StarStar.longJump s))).1 = (Xoshiro512StarStar.nextU64 (iter Xoshiro512StarStar.step (i + 2 ^ 384) s)).1 :=
+  congrArg (fun t => (Xoshiro512StarStar.nextU64 t).1) (Xoshiro512StarStar_longJump_then_steps i s)
+
 end Rngs.C06
